@@ -41,7 +41,9 @@ Check(ev, at) ==
       [] ev.op = "direct_distance" ->
              If(ev.accepted_stale # 0, {[p |-> <<"C09">>, at |-> at,
                     what |-> "a direct handle is accepted again after 2^k (really performed) removals from its archetype"]})
-        \cup If(ev.refused_fresh # 0, {[p |-> <<"C09">>, at |-> at, what |-> "a direct handle minted after the last removal is refused"]})
+        \cup If(ev.refused_fresh # 0, {[p |-> <<"C09", "C01">>, at |-> at, what |-> "a current handle (direct handle minted after the last removal, or the live occupant of the recycled slot) is refused"]})
+        \cup If("accepted_stale_entity" \in DOMAIN ev /\ ev.accepted_stale_entity # 0, {[p |-> <<"C01", "C08">>, at |-> at,
+                    what |-> "a stale entity handle is accepted again after 2^k (really performed) recyclings of its slot"]})
       [] ev.op = "probe" ->
              If(ev.listed # len, {V(at, "entities() length differs from len()")})
         \cup If(ev.wrong # 0, {[p |-> <<"C12", "C01", "C02", "C14">>, at |-> at,
